@@ -64,6 +64,7 @@ type VC struct {
 	refAx      map[string]bool
 	activeBound []*Term
 	curLoopA    *Term
+	pendingTyping []pendingType
 }
 
 func (vc *VC) note(format string, a ...any) {
